@@ -243,8 +243,83 @@ func c04Scn(p c04Params, bound int) *Scn {
 	}}
 }
 
+// c04StallRun: back-pressure. The remote keeps sending KEEPALIVEs but stops READING for 10 virtual
+// seconds (window 16 KiB per direction) while two goroutines write 4077-byte UPDATEs; then it reads
+// everything. Every byte corebgp wrote must still parse as complete messages and match the calls.
+func c04StallRun(ch vrt.Chooser, trace bool) (*world.World, *vrt.Exec, *c04Obs) {
+	var w *world.World
+	o := &c04Obs{}
+	e := vrt.Run(vrt.Config{Horizon: int64(40 * time.Second), Race: true, Trace: trace, Chooser: ch, MaxSteps: 400000}, func() {
+		w = world.New(libIP)
+		w.NW.Window = 17000 // not a multiple of the message size: a blocked write is always in the middle of a frame
+		w.NewServer(libIP)
+		write := func(wr corebgp.UpdateMessageWriter, session int, body []byte) bool {
+			c := &c04Call{g: vrt.Cur().Self().Name(), session: session, body: body}
+			o.calls = append(o.calls, c)
+			c.startSeq = w.Append(world.Event{Kind: "write", Phase: "call", Peer: "P1", Session: session, Conn: -1})
+			c.err = wr.WriteUpdate(body)
+			c.done = true
+			c.endSeq = w.Append(world.Event{Kind: "write", Phase: "return", Peer: "P1", Session: session, Conn: -1, Err: fmt.Sprint(c.err)})
+			return c.err == nil
+		}
+		pl := &world.Plugin{W: w, Peer: "P1", Marker: true, NoYield: ch == nil}
+		pl.OnEst = func(pp *world.Plugin, s int, wr corebgp.UpdateMessageWriter) {
+			for i := 0; i < 2; i++ {
+				i := i
+				vrt.GoWorld(fmt.Sprintf("writer%d", i), func() {
+					vrt.Sleep(500 * time.Millisecond)
+					for n := 0; n < 12; n++ {
+						b := bytes.Repeat([]byte{byte(0x41 + i)}, 4077)
+						b[0], b[1], b[2] = 'S', byte('0'+i), byte(n)
+						if !write(wr, s, b) {
+							return
+						}
+					}
+				})
+			}
+		}
+		w.NW.OnDial(remAddr, func(att int, from *net.TCPAddr) vnet.DialOutcome {
+			if att > 0 {
+				return vnet.DialOutcome{Kind: vnet.DialRefuse}
+			}
+			return vnet.DialOutcome{Kind: vnet.DialAccept, Serve: func(c *vnet.Conn) {
+				r := w.NewRemote(c, "P1")
+				defer r.Finish()
+				if !reach(r, stEstablished, 65002, 9) {
+					return
+				}
+				// keep the session alive without reading
+				vrt.GoWorld("remote-ka", func() {
+					for i := 0; i < 14; i++ {
+						vrt.Sleep(time.Second)
+						if r.C.IsClosed() || r.C.IsReset() || r.C.PeerClosed() {
+							return
+						}
+						r.C.Write(wire.Keepalive())
+					}
+				})
+				vrt.Sleep(10 * time.Second)
+				r.Deadline(5 * time.Second)
+				r.Drain()
+			}}
+		})
+		if err := w.Server.AddPeer(peerConfig(remIP, 65001, 65002), pl, corebgp.WithHoldTime(9), corebgp.WithDialerControl(w.DialControl("P1"))); err != nil {
+			panic("harness: " + err.Error())
+		}
+		w.Serve(libAddr)
+		vrt.Sleep(20 * time.Second)
+		w.Close()
+		w.WaitServeDone()
+	})
+	return w, e, o
+}
+
 func c04Scenarios(th bool) []*Scn {
 	var out []*Scn
+	out = append(out, &Scn{Name: "stalled-reader/hold9", Bound: 1, Run: func(ch vrt.Chooser, trace bool) *ScnResult {
+		w, e, o := c04StallRun(ch, trace)
+		return finishRun("C04", "stalled-reader", w, e, trace, true, func() (string, string) { return c04Judge(c04Params{mode: "free2", event: "none", hold: 9}, w, e, o) }, nil)
+	}})
 	bound := 2
 	if th {
 		bound = 3
